@@ -7,6 +7,7 @@ use a5::core::serialization::*;
 #[kani::proof]
 #[kani::unwind(32)]
 #[kani::stub(alloc::fmt::format, fmt_stub)]
+#[kani::stub(a5::core::serialization::get_resolution, res_stub)]
 pub fn c09_single_flat() {
     warm();
     let c = any_valid_cell_res(-1, 29);
@@ -34,6 +35,7 @@ pub fn c09_single_flat() {
 #[kani::proof]
 #[kani::unwind(32)]
 #[kani::stub(alloc::fmt::format, fmt_stub)]
+#[kani::stub(a5::core::serialization::get_resolution, res_stub)]
 pub fn c09_pair_flat() {
     warm();
     let a = any_valid_cell_res(-1, 29);
@@ -135,12 +137,12 @@ pub fn c09_pair_d1() {
     core::mem::forget(v);
 }
 
-/// World and base classes: uncompact(&[world], 0) = the 12 base cells; uncompact(&[base f], 1) = its 5 quintants.
+/// World class: uncompact(&[world], 0) = the 12 base cells in face order.
 #[kani::proof]
 #[kani::unwind(32)]
 #[kani::stub(alloc::fmt::format, fmt_stub)]
 #[kani::stub(a5::core::serialization::get_resolution, res_stub)]
-pub fn c09_world_base() {
+pub fn c09_world() {
     warm();
     let w = match a5::uncompact(&[WORLD_CELL], 0) {
         Ok(v) => v,
@@ -153,6 +155,25 @@ pub fn c09_world_base() {
     let i: usize = kani::any();
     kani::assume(i < 12);
     assert!(res_stub(w[i]) == 0 && (w[i] >> 58) == i as u64 && spec_valid(w[i]));
+    // the world cell itself: fan-out 1, and nothing is coarser
+    match a5::uncompact(&[WORLD_CELL], -1) {
+        Ok(v) => {
+            assert!(v.len() == 1 && v[0] == WORLD_CELL);
+            core::mem::forget(v);
+        }
+        Err(_) => assert!(false),
+    }
+    kani::cover!(i == 11);
+    core::mem::forget(w);
+}
+
+/// Base class: ∀ face: uncompact(&[base f], 1) = its 5 quintants.
+#[kani::proof]
+#[kani::unwind(32)]
+#[kani::stub(alloc::fmt::format, fmt_stub)]
+#[kani::stub(a5::core::serialization::get_resolution, res_stub)]
+pub fn c09_base() {
+    warm();
     let c = any_valid_cell_res(0, 0);
     let id = ser(&c);
     let q = match a5::uncompact(&[id], 1) {
@@ -167,8 +188,7 @@ pub fn c09_world_base() {
     let k: usize = kani::any();
     kani::assume(j < 5 && k < 5 && j != k);
     assert!(q[j] != q[k]);
-    assert!(res_stub(q[j]) == 1 && par(q[j], 0) == id);
+    assert!(res_stub(q[j]) == 1 && spec_covers(id, q[j]) && spec_valid(q[j]));
     kani::cover!(c.origin_id == 11);
-    core::mem::forget(w);
     core::mem::forget(q);
 }
